@@ -17,18 +17,27 @@ import (
 // World is the harness-side state of one run: the flat reference memory, the
 // in-flight byte table that keeps conflicting requests apart, and the verdict.
 type World struct {
-	Ref      map[uint64]byte
-	Written  map[uint64]bool
-	inflight map[uint64]int
-	Asm      *Asm
-	V        *kit.Violation
-	Events   uint64
-	CapHit   bool
-	Probes   map[string]int
-	Resp     []RespRec // response log (fingerprint for C33 / C03)
-	PID      uint32
+	Ref           map[uint64]byte
+	Written       map[uint64]bool
+	inflight      map[uint64]int
+	Asm           *Asm
+	V             *kit.Violation
+	Events        uint64
+	CapHit        bool
+	Probes        map[string]int
+	Resp          []RespRec // response log (fingerprint for C33 / C03)
+	PID           uint32
+	Seq           uint64          // global observation sequence (control monitors)
+	Acked         map[uint64]byte // flat memory of acknowledged writes only
+	WriteInflight map[uint64]int
+	Ctrl          *CtrlDriver
 	// AfterEvent is an optional monitor run after every handled event.
 	AfterEvent func(w *World, handler string)
+	// NoDataCheck disables the flat-memory comparison of read data (runs whose
+	// lower memory deliberately returns unique payloads).
+	NoDataCheck bool
+	// OnBuilt is called once the assembly exists and before the run starts.
+	OnBuilt func(a *Asm)
 }
 
 // RespRec is one response as seen by a requester.
@@ -42,7 +51,10 @@ type RespRec struct {
 
 // NewWorld returns an empty world.
 func NewWorld() *World {
-	return &World{Ref: map[uint64]byte{}, Written: map[uint64]bool{}, inflight: map[uint64]int{}, Probes: map[string]int{}}
+	return &World{
+		Ref: map[uint64]byte{}, Written: map[uint64]bool{}, inflight: map[uint64]int{}, Probes: map[string]int{},
+		Acked: map[uint64]byte{}, WriteInflight: map[uint64]int{},
+	}
 }
 
 func (w *World) fail(oracle, sig, f string, a ...any) {
@@ -166,12 +178,13 @@ func (r *Requester) Tick() bool {
 			data, mask := writeData(r.idx, r.next, op)
 			meta.TrafficBytes = len(data) + 12
 			meta.TrafficClass = "memprotocol.WriteReq"
-			r.port.Send(memprotocol.WriteReq{MsgMeta: meta, Address: op.Addr, Data: data, DirtyMask: mask, PID: vmPID(w.PID)})
+			r.port.Send(memprotocol.WriteReq{MsgMeta: meta, Address: op.Addr, Data: data, DirtyMask: mask, PID: vmPID(w.PID + op.PID)})
 
 			for i := range data {
 				if mask == nil || mask[i] {
 					w.Ref[op.Addr+uint64(i)] = data[i]
 					w.Written[op.Addr+uint64(i)] = true
+					w.WriteInflight[op.Addr+uint64(i)]++
 				}
 			}
 		} else {
@@ -184,7 +197,7 @@ func (r *Requester) Tick() bool {
 			}
 
 			o.expected = exp
-			r.port.Send(memprotocol.ReadReq{MsgMeta: meta, Address: op.Addr, AccessByteSize: uint64(op.Size), PID: vmPID(w.PID)})
+			r.port.Send(memprotocol.ReadReq{MsgMeta: meta, Address: op.Addr, AccessByteSize: uint64(op.Size), PID: vmPID(w.PID + op.PID)})
 		}
 
 		for i := 0; i < op.Size; i++ {
@@ -217,7 +230,7 @@ func (r *Requester) handleRsp(m messaging.Msg, now uint64) {
 	case memprotocol.DataReadyRsp:
 		if o.op.Write {
 			w.fail("response-monitor", "C16:wrong-response-kind", "%s write #%d answered with DataReadyRsp", r.name, o.ord)
-		} else if !bytes.Equal(rsp.Data, o.expected) {
+		} else if !w.NoDataCheck && !bytes.Equal(rsp.Data, o.expected) {
 			w.fail("flat-memory", "C16:read-data", "%s read #%d of [%#x,+%d) issued t=%d answered t=%d returned %x, flat memory holds %x",
 				r.name, o.ord, o.op.Addr, o.op.Size, o.issuedAt, now, rsp.Data, o.expected)
 		}
@@ -229,6 +242,16 @@ func (r *Requester) handleRsp(m messaging.Msg, now uint64) {
 		}
 
 		w.Resp = append(w.Resp, RespRec{Req: r.idx, Ord: o.ord, Time: now, Write: true})
+
+		if o.op.Write {
+			data, mask := writeData(r.idx, o.ord, o.op)
+			for i := range data {
+				if mask == nil || mask[i] {
+					w.Acked[o.op.Addr+uint64(i)] = data[i]
+					w.WriteInflight[o.op.Addr+uint64(i)]--
+				}
+			}
+		}
 	default:
 		w.fail("response-monitor", "C16:wrong-response-kind", "%s received unexpected message %T", r.name, m)
 	}
@@ -238,6 +261,10 @@ func (r *Requester) handleRsp(m messaging.Msg, now uint64) {
 
 	for i := 0; i < o.op.Size; i++ {
 		w.inflight[o.op.Addr+uint64(i)]--
+	}
+
+	if w.Ctrl != nil {
+		w.Ctrl.Poke()
 	}
 
 	// a completed request may unblock a conflicting one at any requester
@@ -298,6 +325,10 @@ func Run(cfg *Config, w *World) *Asm {
 	w.Asm = a
 	a.Eng.RegisterHandler("ReqPoker", reqPoker{a})
 	a.Eng.AcceptHook(engineHook{w})
+
+	if w.OnBuilt != nil {
+		w.OnBuilt(a)
+	}
 
 	for i, r := range a.Reqs {
 		r.tc.TickLater()
